@@ -291,5 +291,10 @@ def _check_main(ctx, rep: Report):
 def check(ctx, rep):
     from . import metarules, shared
     _check_main(ctx, rep)
+    from . import metarules, r5rules
+    from . import shared as _sh
+    _sh.borrow(ctx, rep, "c20", {"C20.LK": "C19.LK"})      # concurrent first instantiations copy defaults: the copyreg patch must be lock-disciplined
+    r5rules.build_attr_spec_rules(ctx, rep, "C19.ATTR", ("target",))
+    r5rules.new_wrapper_order(ctx, rep, "C19.NEWORD")
     metarules.decorator_snapshots(ctx, rep, "C19.SNAP")
     metarules.singular_cache(ctx, rep, "C19.CACHE")
